@@ -164,32 +164,32 @@ def rule_shared_table(rep: Report, rid="C15.shared") -> None:
 
 
 def rule_header(rep: Report, rid="C05.header") -> None:
-    f = facts()
-    cls = f.cls(mr.MQ)
-    ca = cls.find_class_attr("LANGUAGE_RE")
     rep.used_file(mr.MFILE)
     kw = dict(file=mr.MFILE, function=mr.MQ)
-    pat = None
-    flags = 0
-    if ca is not None and isinstance(ca[1], ast.Call) and dotted(ca[1].func) == "re.compile" and ca[1].args and isinstance(ca[1].args[0], ast.Constant):
-        pat = ca[1].args[0].value
-        if len(ca[1].args) > 1 or ca[1].keywords:
-            flags = -1
     want = r"^\s*#\s*language\s*:\s*([a-zA-Z\-_]+)\s*$"
-    rep.ob(rid, "the language header pattern is: blanks, '#', blanks, 'language', blanks, ':', blanks, one name of letters/'-'/'_', blanks, end",
-           pat is not None and flags == 0 and regexnf.same(pat, 0, want), line=getattr(ca[1], "lineno", None) if ca else None, **kw,
-           expected=regexnf.describe(want), found=regexnf.describe(pat) if pat is not None else "not a constant re.compile")
-    # match_Language: match on the trimmed line, text = group 1, then switch dialect with the token's location
+    # match_Language: the header pattern on the trimmed line (anchored match, however the pattern is held: class-level or
+    # module-level compiled pattern, or an inline re.match), text = group 1, then switch dialect with the token's location
     m = mr.mnf().methods["Language"]
     I = m.I
     rep.used_function(m.fi.qualname)
     line, trimmed, raw = mr.line_terms(m)
-    RE = ("classattr", mr.MQ, "LANGUAGE_RE")
-    match = ("call", ".match", (RE, trimmed), ())
+    rep.ob(rid, "match_Language reports matches through the single sink", bool(m.sinks), **mr._kw(m), expected=">= 1 sink call", found=len(m.sinks))
     for sn, ctx in m.sinks:
         gs = nf.guards_in_ctx(ctx)
-        rep.eq(rid, "a language header is recognised by the header pattern on the line", [(fmt(match, I), True)], [(fmt(c, I), p) for c, p in gs], **mr._kw(m, sn[2]))
-        rep.eq(rid, "the Language token's text is the captured name", fmt(("call", ".group", (match, const(1)), ()), I), fmt(sn[1].get("text"), I) if sn[1].get("text") else None, **mr._kw(m, sn[2]))
+        match = None
+        if len(gs) == 1 and gs[0][1]:
+            g = gs[0][0]
+            if g[0] == "call" and g[1] in ("re.match", "re.fullmatch", "re.search") and len(g[2]) == 2 and is_const(g[2][0]) and g[2][1] == trimmed:
+                match = g
+        pat = match[2][0][1] if match else None
+        flags = dict(match[3]).get("flags") if match else None
+        # re.match anchors at the start; the pattern's own ^...$ anchors make search/fullmatch equivalent
+        ok = pat is not None and flags is None and regexnf.same(pat, 0, want)
+        rep.ob(rid, "a language header is recognised on the left-trimmed line by the pattern: blanks, '#', blanks, 'language', blanks, ':', blanks, "
+                    "one name of letters/'-'/'_', blanks, end", ok, **mr._kw(m, sn[2]),
+               expected=regexnf.describe(want), found=(regexnf.describe(pat) if pat is not None else [(fmt(c, I), p) for c, p in gs]))
+        rep.eq(rid, "the Language token's text is the captured name", fmt(("call", ".group", (match, const(1)), ()), I) if match else "group(1) of the header match",
+               fmt(sn[1].get("text"), I) if sn[1].get("text") else None, **mr._kw(m, sn[2]))
     # order: sink (sets the column) precedes the dialect switch, which gets the token location
     order = [n for n, _ in nf.iter_nodes(m.tree) if n[0] == "sink" or (n[0] == "call" and n[1].endswith("." + N.CHANGE_DIALECT))]
     ok = [n[0] for n in order] == ["sink", "call"]
